@@ -282,9 +282,32 @@ func solveAll(vcs []*VC, cfg solveCfg) {
 	wg.Wait()
 }
 
+var (
+	oblFileMu  sync.Mutex
+	oblFileIDs = map[*Obligation]int{}
+)
+
+// oblFile is a file-name stem unique to the obligation: distinct obligation names may
+// mangle to the same text (the cases `x<0` and `x=0` of a split), and two solver jobs must
+// never share a query file.
+func oblFile(o *Obligation) string {
+	oblFileMu.Lock()
+	defer oblFileMu.Unlock()
+	id, ok := oblFileIDs[o]
+	if !ok {
+		id = len(oblFileIDs) + 1
+		oblFileIDs[o] = id
+	}
+	n := smtQuote(o.Name)
+	if len(n) > 150 {
+		n = n[len(n)-150:]
+	}
+	return fmt.Sprintf("%05d_%s", id, n)
+}
+
 func solveOne(vc *VC, o *Obligation, cfg solveCfg) {
 	tryWeaker := func(text, tag string) bool {
-		file := filepath.Join(cfg.dir, smtQuote(o.Name)+"."+tag+".smt2")
+		file := filepath.Join(cfg.dir, oblFile(o)+"."+tag+".smt2")
 		if os.WriteFile(file, []byte(text), 0o644) != nil {
 			return false
 		}
@@ -343,7 +366,7 @@ func solveOne(vc *VC, o *Obligation, cfg solveCfg) {
 	}
 	text := vc.smtFor(o, true)
 	o.SMTSize = len(text)
-	file := filepath.Join(cfg.dir, smtQuote(o.Name)+".smt2")
+	file := filepath.Join(cfg.dir, oblFile(o)+".smt2")
 	if err := os.WriteFile(file, []byte(text), 0o644); err != nil {
 		o.Status = "error"
 		o.Detail = err.Error()
